@@ -3,9 +3,11 @@
              op = (0 a recv ref d p) Once | (1 a recv ref i p) Loop | (2 a recv ref valid p) Cron
                 | (3 a ref) Cancel | (4 a) Clear | (5 a ref) Exists | (6 a) owner terminated | (7 a) owner restarted
                 | (8 dt) Tick | (9 dt) Stall | (10 (a ...)) Dump           d, i, dt signed (tz), in ms
-    output = ( (result ...) ((delivered dead-lettered) ...) spin )
-             one result per op; one pair of counts per scheduling call that was executed, in call order
-             (an invalid Cron and a call of a dead actor are not numbered). *)
+    output = ( (result ...) ((delivered dead-lettered) ...) )
+             one result per op; one pair of counts per scheduling call that returned nil, in call order.
+             results: 0 nil | 1 not-found | 2 cron parse error | 3 quartz job-not-found | 4 no result (Clear, clock and
+             lifecycle steps) | 5 dead actor | 7 vivid illegal argument | 8 quartz job-already-exists |
+             9 quartz empty key name | (b) Exists | (((path (ref ...)) ...) ((path ref) ...)) dump *)
 From Coq Require Import List NArith ZArith.
 From stdpp Require Import gmap.
 From Vivid Require Import Base.Tm Timer.SchedModel.
@@ -35,9 +37,11 @@ Definition t_res (r : res) : tm :=
   | RQuartzNotFound => TN 3
   | RUnit => TN 4
   | RDeadActor => TN 5
-  | RSpin => TN 6
+  | RIllegalArg => TN 7
+  | RExists => TN 8
+  | REmptyRef => TN 9
   | RBool b => TL [tbool b]
-  | RDump jks keys => TL [tlist (fun p => TL [TB (fst p); tlist TB (snd p)]) jks; tlist TB keys]
+  | RDump jks keys => TL [tlist (fun p => TL [TB (fst p); tlist TB (snd p)]) jks; tlist (fun k => TL [TB (fst k); TB (snd k)]) keys]
   end.
 
 Definition count_fires (s : sched) (x : N) : tm :=
@@ -50,7 +54,6 @@ Definition run_sched (t : tm) : tm :=
   | Some ops =>
       let s := run ops init in
       TL [tlist t_res (run_res ops init);
-          tlist (count_fires s) (map N.of_nat (seq 0 (N.to_nat (nid s))));
-          tbool (spin s)]
+          tlist (count_fires s) (map N.of_nat (seq 0 (N.to_nat (nid s))))]
   | None => tm_err 1
   end.
